@@ -154,6 +154,10 @@ const FILL: &[&str] = &[
     "z",
     "z.y",
     "__tera_context",
+    // the magic variable as the root of a path (seeded change C09-3: fused like any other root,
+    // then looked up as an ordinary variable)
+    "__tera_context.a",
+    "__tera_context.a.b",
     "true",
     "false",
     "n",
